@@ -81,7 +81,11 @@ class Interp:
                     self.modns[st.targets[0].id] = st.value
         import operator as _op
         import functools as _ft
-        for nm, f in dict(attrgetter=_op.attrgetter, itemgetter=_op.itemgetter, partial=_ft.partial).items():
+        import itertools as _it
+        for nm, f in dict(attrgetter=_op.attrgetter, itemgetter=_op.itemgetter, partial=_ft.partial, reduce=_ft.reduce,
+                          chain=_it.chain, repeat=_it.repeat, starmap=_it.starmap, zip_longest=_it.zip_longest, filterfalse=_it.filterfalse,
+                          product=_it.product, islice=_it.islice, opr=_op, deque=collections.deque, defaultdict=collections.defaultdict,
+                          abs=abs, sum=sum, divmod=divmod, hash=hash, id=id, callable=callable, repr=repr, slice=slice, float=float).items():
             self.g.setdefault(nm, f)
         self.g.setdefault('type', lambda x: getattr(x, '_typ', type(x)))
         self.g.setdefault('bool', bool)
